@@ -57,10 +57,18 @@ Base(R) == IF R = NoRoom THEN R ELSE Apply(R, added)
 Entitled(R) ==
     \/ Ev.kind \in {"self_user", "add_user"} /\ (IsAdmin(R, Ev.by, Ev.now) \/ IsUserAdmin(R.groups[GroupIndex(R, Ev.g)], Ev.by, Ev.now))
     \/ Ev.kind \in {"self_uadmin", "self_admin", "self_right"} /\ IsAdmin(R, Ev.by, Ev.now)
+\* a candidate that omits the newest user entry of a group adds nothing: a receiver that did not hold that entry ends with the honest room without it
+RemoveAt(sq, j) == [k \in 1..(Len(sq) - 1) |-> IF k < j THEN sq[k] ELSE sq[k + 1]]
+WithoutNewestUser(R) ==
+    LET i == GroupIndex(R, Ev.g)
+        us == R.groups[i].users
+        newest == {j \in DOMAIN us : \A k \in DOMAIN us : us[k].d <= us[j].d}
+    IN {[R EXCEPT !.groups[i].users = RemoveAt(us, j)] : j \in newest}
 Allowed(dates) ==
     IF Ev.kind = "honest" THEN {Expected(Base(room), dates)}
     ELSE {Expected(Base(snap), dates), Expected(Base(room), dates)}
          \cup (IF Entitled(Base(room)) THEN {Expected(AddEntry(Base(room), ThisEntry), dates)} ELSE {})
+         \cup (IF Ev.kind = "drop_entry" /\ room # NoRoom THEN {Expected(Base(R), dates) : R \in WithoutNewestUser(room)} ELSE {})
 ViewBad(name, path, dates) ==
     IF "err" \in DOMAIN path
     THEN (IF snap = NoRoom /\ Ev.out.verdict # "accepted" THEN {} ELSE {<<name, "error", Ev.kind, Ev.by>>})
